@@ -219,4 +219,8 @@ def run(ctx):
         run.instance(R4, {"fn": "find_reverted_kernels", "obligation": "only TxReceived entries are candidates"}, held=held)
         if not held:
             run.finding(Finding(R4, fr.id, "reverted-kernel candidates are no longer restricted to TxReceived", site=fr.loc()))
+    R5 = "C18.R5"
+    run.rule(R5, "a refresh at an unchanged tip still applies the node's answer (the give-up test is strictly 'node behind wallet')", floor=1)
+    from .shared import refresh_not_skipped
+    refresh_not_skipped(ctx, R5)
     run.not_decided += ["fork depths, repeated flip-flops, what a scan reports after a reorganisation (histories over a chain)"]
